@@ -67,7 +67,14 @@ pub fn real(hist: usize, keys: &[Key]) -> Result<View, Stopped> {
     let mut term = VerifTerminal::verif_new(history);
     term.verif_push_keys(keys.iter().map(|k| to_real(*k)));
     let mut commands = Vec::new();
+    // every command costs at least one key (Enter or a ';' typed or recalled from the history):
+    // a reader that keeps returning commands without consuming keys is cut here
+    let history_semis: usize = HISTORIES[hist].iter().map(|h| h.matches(';').count() + 1).sum();
+    let cap = 8 + (keys.len() + 1) * (history_semis + 2);
     loop {
+        if commands.len() > cap {
+            return Err(Stopped::Panic { msg: format!("the reader returned more than {cap} commands for {} keys without running out of input", keys.len()), loc: "reader-never-finishes:0:0".into() });
+        }
         match guard(|| term.verif_read()) {
             Ok(Some(c)) => commands.push(c),
             Ok(None) => break,
